@@ -272,6 +272,18 @@ fn keys_of_images(imgs: &[Vec<String>]) -> Vec<String> {
 }
 const INCOHERENT: &str = "tensor_store.exists_scan_get/disagree";
 
+/// Class of one incoherent key (site + kind from the trace): the ghost of a failed put_durable — an emb: key whose
+/// put with a vector returned an error in this chain, which exists / scan report although get rejects it — is the
+/// FIXED class `FAILED_PUT_GHOST` (repo f5ce42e5); every other disagreement stays `INCOHERENT`.
+fn incoherence_class(key: &str, what: &str, failed_puts: &HashSet<String>) -> &'static str {
+    let ghost = what.contains("get_ok=false") && (what.contains("exists=true") || what.contains("scan_lists=true") || what.contains("scan_by_key_prefix_lists=true"));
+    if ghost && key.starts_with("emb:") && failed_puts.contains(key) {
+        FAILED_PUT_GHOST
+    } else {
+        INCOHERENT
+    }
+}
+
 fn durable_part(img: &[String]) -> Vec<String> {
     let cache_prefix = hex(b"_cache:");
     img.iter().filter(|s| !s.starts_with('!') && !s.starts_with(&cache_prefix)).cloned().collect()
@@ -438,8 +450,6 @@ struct Ctx {
     max_rel_err: f64,
     /// tolerance observations already recorded in full (the report keeps 20 observations in all)
     n_inexact_obs: usize,
-    /// ghost-key observations already recorded in full (live, recovered)
-    n_ghost_obs: (usize, usize),
 }
 
 impl Ctx {
@@ -552,8 +562,9 @@ struct CrashInfo<'a> {
     unsynced_ckpt: bool,
     compare_model: bool,
     bloom: bool,
-    /// appends can fail in this chain (auto_rotate = false): ghost emb: keys are observed, not violations
-    failing_appends: bool,
+    /// emb: keys for which a put_durable carrying a vector returned an error in this chain (auto_rotate = false:
+    /// append refused): a ghost of such a key is classified as the FIXED class `FAILED_PUT_GHOST`
+    failed_puts: &'a HashSet<String>,
     script: &'a Value,
 }
 
@@ -653,22 +664,12 @@ fn check_recovery(ctx: &mut Ctx, ds: &DiskState, cfg: &WalConfig, exp: &Expect, 
         ctx.rep.hit("oracle.recovered_state_is_acked_prefix");
     }
     for (k, what) in &incoherent {
-        if info.failing_appends && k.starts_with("emb:") {
-            continue; // the ghost of a failed put_durable: reported as an observation below
-        }
-        ctx.rep.hit(&format!("violation.{INCOHERENT}"));
-        ctx.rep.violation(INCOHERENT, &format!("recovered store: key {k:?}: {what}"), cut_json());
+        let class = incoherence_class(k, what, info.failed_puts);
+        ctx.rep.hit(&format!("violation.{class}"));
+        ctx.rep.violation(class, &format!("recovered store: key {k:?}: {what}"), cut_json());
     }
     if incoherent.is_empty() {
         ctx.rep.hit("oracle.exists_scan_get_agree");
-    }
-    if let Some(img) = &img {
-        let embp = format!("!{}", hex(b"emb:"));
-        for g in img.iter().filter(|s| s.starts_with(&embp)) {
-            ctx.rep.hit("observe.ghost_key_in_recovered_scan");
-            ctx.n_ghost_obs.1 += 1;
-            if ctx.n_ghost_obs.1 <= 3 { ctx.rep.observe(json!({"class": FAILED_PUT_GHOST, "what": "RECOVERED store: scan lists an emb: key that get rejects (entity-index entry of a failed put_durable, persisted by a checkpoint)", "key_hex": g, "crash": info.what, "snapshot": ds.snap_name, "script": info.script})); }
-        }
     }
     let _ = std::fs::remove_dir_all(&d);
     matched
@@ -814,6 +815,8 @@ fn run_chain(ctx: &mut Ctx, r: &mut Rng, cc: &ChainCfg, epochs: &[Vec<Op>]) {
     let mut prev_torn = false;
     let mut rotated_any = false;
     let mut live_snap: Option<String> = None; // the snapshot the running store was loaded from
+    // emb: keys whose put_durable with a vector returned an error (append refused) somewhere in this chain
+    let mut failed_puts: HashSet<String> = HashSet::new();
 
     for (ei, ops) in epochs.iter().enumerate() {
         let base_len = std::fs::metadata(&wal_path).map(|m| m.len() as usize).unwrap_or(0);
@@ -867,7 +870,15 @@ fn run_chain(ctx: &mut Ctx, r: &mut Rng, cc: &ChainCfg, epochs: &[Vec<Op>]) {
                         None => line,
                     };
                     let applied = imp_res != "err";
-                    if !applied { ctx.rep.hit("op.refused_by_size_limit"); }
+                    if !applied {
+                        ctx.rep.hit("op.refused_by_size_limit");
+                        if let Op::Put(_, d) = op {
+                            if k.starts_with("emb:") && canon(d).1.is_some() {
+                                ctx.rep.hit("op.refused_put_of_emb_key_with_vector");
+                                failed_puts.insert(k.clone());
+                            }
+                        }
+                    }
                     let model = ctx.m.ask(&line);
                     if let Some(t) = model.split("total=").nth(1).and_then(|x| x.split_whitespace().next()).and_then(|x| x.parse().ok()) {
                         model_total = t;
@@ -895,6 +906,9 @@ fn run_chain(ctx: &mut Ctx, r: &mut Rng, cc: &ChainCfg, epochs: &[Vec<Op>]) {
                         }
                         for e in &ents {
                             ctx.rep.hit(&format!("record.{}", e.split(':').next().unwrap_or("?")));
+                        }
+                        if !applied {
+                            ctx.rep.hit(&format!("op.refused_{}_after_{}_records", if is_put { "put" } else { "delete" }, ents.len()));
                         }
                         let imp = format!("{imp_res} {}", if ents.is_empty() { "-".to_string() } else { ents.join(",") });
                         let model_short = model.split(" synced=").next().unwrap_or("").to_string();
@@ -965,7 +979,7 @@ fn run_chain(ctx: &mut Ctx, r: &mut Rng, cc: &ChainCfg, epochs: &[Vec<Op>]) {
                                 };
                                 let segments: Vec<(String, Vec<u8>)> = if sg == "-" { Vec::new() } else { sg.split(';').filter_map(|p| p.split_once(':').map(|(n, h)| (format!("w.wal.{n}"), if h == "-" { Vec::new() } else { nverif::unhex(h) }))).collect() };
                                 let ds = DiskState { snap: snap_bytes.clone(), snap_name: snap_name.clone(), wal: wal_bytes, segments, tmp: None, wal_missing: missing };
-                                let info = CrashInfo { stream: cc.stream, what: format!("epoch {ei} op{oi}: inside rotate, after file-system call {} of {}", si + 1, states.len()), prev_torn, rotated: true, unsynced_ckpt: false, compare_model: cc.compare_model, bloom: cc.bloom, failing_appends: false, script: &script };
+                                let info = CrashInfo { stream: cc.stream, what: format!("epoch {ei} op{oi}: inside rotate, after file-system call {} of {}", si + 1, states.len()), prev_torn, rotated: true, unsynced_ckpt: false, compare_model: cc.compare_model, bloom: cc.bloom, failed_puts: &failed_puts, script: &script };
                                 let fl = prefixes.len() - 1;
                                 check_recovery(ctx, &ds, &cfg, &Expect { prefixes: &prefixes, floor: fl }, &info);
                                 ctx.rep.hit(if missing { "rotate_state.log_path_missing" } else if si + 1 == states.len() { "rotate_state.fresh_file_created" } else { "rotate_state.before_live_rename" });
@@ -1072,20 +1086,20 @@ fn run_chain(ctx: &mut Ctx, r: &mut Rng, cc: &ChainCfg, epochs: &[Vec<Op>]) {
                     let all_now = prefixes.len() - 1;
                     let full: Vec<Vec<String>> = prefixes.clone();
                     // c0: crash before the log is fsynced (what was on disk before the call)
-                    let info0 = CrashInfo { stream: cc.stream, what: format!("epoch {ei} checkpoint@op{oi}: before fsync"), prev_torn, rotated: rotated_any, unsynced_ckpt: false, compare_model: cc.compare_model, bloom: cc.bloom, failing_appends: cc.no_rotate, script: &script };
+                    let info0 = CrashInfo { stream: cc.stream, what: format!("epoch {ei} checkpoint@op{oi}: before fsync"), prev_torn, rotated: rotated_any, unsynced_ckpt: false, compare_model: cc.compare_model, bloom: cc.bloom, failed_puts: &failed_puts, script: &script };
                     let fl0 = if immediate { all_now } else { floor_ops };
                     check_recovery(ctx, &old, &cfg, &Expect { prefixes: &full, floor: fl0 }, &info0);
                     ctx.rep.hit("ckpt_state.before_fsync");
                     // c0b: log fsynced, old snapshot still in place: everything issued is acknowledged
                     let synced_old = DiskState { snap: snap_bytes.clone(), snap_name: snap_name.clone(), wal: wal_before.clone(), segments: segs_before.clone(), tmp: None, wal_missing: false };
-                    let info0b = CrashInfo { stream: cc.stream, what: format!("epoch {ei} checkpoint@op{oi}: log fsynced, before snapshot"), prev_torn, rotated: rotated_any, unsynced_ckpt: !issued_records_on_disk, compare_model: cc.compare_model, bloom: cc.bloom, failing_appends: cc.no_rotate, script: &script };
+                    let info0b = CrashInfo { stream: cc.stream, what: format!("epoch {ei} checkpoint@op{oi}: log fsynced, before snapshot"), prev_torn, rotated: rotated_any, unsynced_ckpt: !issued_records_on_disk, compare_model: cc.compare_model, bloom: cc.bloom, failed_puts: &failed_puts, script: &script };
                     check_recovery(ctx, &synced_old, &cfg, &Expect { prefixes: &full, floor: all_now }, &info0b);
                     ctx.rep.hit("ckpt_state.before_snapshot");
                     // c0c: crash INSIDE the snapshot step: the temp file is partly written, not yet renamed over
                     // the snapshot path (recovery must not look at it; with no earlier snapshot it is given a
                     // snapshot path that does not exist)
                     let partial_tmp = DiskState { snap: snap_bytes.clone(), snap_name: snap_name.clone(), wal: wal_before.clone(), segments: segs_before.clone(), tmp: Some(new_snap[..new_snap.len() / 2].to_vec()), wal_missing: false };
-                    let info0c = CrashInfo { stream: cc.stream, what: format!("epoch {ei} checkpoint@op{oi}: log fsynced, snapshot temp file half written"), prev_torn, rotated: rotated_any, unsynced_ckpt: !issued_records_on_disk, compare_model: cc.compare_model, bloom: cc.bloom, failing_appends: cc.no_rotate, script: &script };
+                    let info0c = CrashInfo { stream: cc.stream, what: format!("epoch {ei} checkpoint@op{oi}: log fsynced, snapshot temp file half written"), prev_torn, rotated: rotated_any, unsynced_ckpt: !issued_records_on_disk, compare_model: cc.compare_model, bloom: cc.bloom, failed_puts: &failed_puts, script: &script };
                     check_recovery(ctx, &partial_tmp, &cfg, &Expect { prefixes: &full, floor: all_now }, &info0c);
                     ctx.rep.hit("ckpt_state.partial_snapshot_tmp");
                     // c1..c3: snapshot in place, marker absent / partial / complete
@@ -1105,7 +1119,7 @@ fn run_chain(ctx: &mut Ctx, r: &mut Rng, cc: &ChainCfg, epochs: &[Vec<Op>]) {
                             unsynced_ckpt: !issued_records_on_disk,
                             compare_model: cc.compare_model,
                             bloom: cc.bloom,
-                            failing_appends: cc.no_rotate,
+                            failed_puts: &failed_puts,
                             script: &script,
                         };
                         check_recovery(ctx, &ds, &cfg, &Expect { prefixes: &full, floor: all_now }, &info);
@@ -1114,7 +1128,7 @@ fn run_chain(ctx: &mut Ctx, r: &mut Rng, cc: &ChainCfg, epochs: &[Vec<Op>]) {
                     }
                     // c4: truncated
                     let ds4 = DiskState { snap: Some(new_snap.clone()), snap_name: new_name.clone(), wal: Vec::new(), segments: read_segments(&dir), tmp: None, wal_missing: false };
-                    let info4 = CrashInfo { stream: cc.stream, what: format!("epoch {ei} checkpoint@op{oi}: log truncated"), prev_torn, rotated: false, unsynced_ckpt: false, compare_model: cc.compare_model, bloom: cc.bloom, failing_appends: cc.no_rotate, script: &script };
+                    let info4 = CrashInfo { stream: cc.stream, what: format!("epoch {ei} checkpoint@op{oi}: log truncated"), prev_torn, rotated: false, unsynced_ckpt: false, compare_model: cc.compare_model, bloom: cc.bloom, failed_puts: &failed_puts, script: &script };
                     check_recovery(ctx, &ds4, &cfg, &Expect { prefixes: &full, floor: all_now }, &info4);
                     ctx.rep.hit("ckpt_state.after_truncate");
                     states.push((ds4, false));
@@ -1169,19 +1183,13 @@ fn run_chain(ctx: &mut Ctx, r: &mut Rng, cc: &ChainCfg, epochs: &[Vec<Op>]) {
             ctx.rep.violation(class, "live store (after a recovery) answers differently from the writes issued", json!({"script": script, "epoch": ei, "live": live_dur, "expected": spec_image(&spec)}));
         }
         for (k, what) in incoherent_keys(&store, &keys_of_images(&prefixes)) {
-            if cc.no_rotate && k.starts_with("emb:") {
-                continue; // ghost of a failed put_durable: observed below
-            }
-            ctx.rep.hit(&format!("violation.{INCOHERENT}"));
-            ctx.rep.violation(INCOHERENT, &format!("live store: key {k:?}: {what}"), json!({"script": script, "epoch": ei}));
+            let class = incoherence_class(&k, &what, &failed_puts);
+            ctx.rep.hit(&format!("violation.{class}"));
+            ctx.rep.violation(class, &format!("live store: key {k:?}: {what}"), json!({"script": script, "epoch": ei}));
         }
         for g in live.iter().filter(|s| s.starts_with('!')) {
             let key = String::from_utf8(nverif::unhex(&g[1..])).unwrap_or_default();
-            if key.starts_with("emb:") {
-                ctx.rep.hit("observe.ghost_key_in_scan");
-                ctx.n_ghost_obs.0 += 1;
-                if ctx.n_ghost_obs.0 <= 3 { ctx.rep.observe(json!({"class": FAILED_PUT_GHOST, "what": "LIVE store: scan lists (and exists confirms) an emb: key that get rejects: a put_durable whose append was refused left its entity-index entry behind", "exists": store.exists(&key), "key_hex": g, "script": script})); }
-            } else {
+            if !key.starts_with("emb:") {
                 // only emb: keys live in the entity index: a key of any other class that scan lists is readable
                 ctx.rep.hit(&format!("violation.{NON_EMB_GHOST}"));
                 ctx.rep.violation(NON_EMB_GHOST, "scan of the live store lists a non-emb: key that get rejects (entity-index entry left behind by a delete)", json!({"script": script, "epoch": ei, "key": key, "live": live}));
@@ -1216,7 +1224,7 @@ fn run_chain(ctx: &mut Ctx, r: &mut Rng, cc: &ChainCfg, epochs: &[Vec<Op>]) {
                     end == "torn"
                 };
                 ctx.rep.hit(if is_torn { "cut.torn_tail" } else { "cut.record_boundary" });
-                let info = CrashInfo { stream: cc.stream, what: format!("epoch {ei}: log cut at byte {n} of {}", file.len()), prev_torn, rotated: rotated_any, unsynced_ckpt: false, compare_model: cc.compare_model, bloom: cc.bloom, failing_appends: cc.no_rotate, script: &script };
+                let info = CrashInfo { stream: cc.stream, what: format!("epoch {ei}: log cut at byte {n} of {}", file.len()), prev_torn, rotated: rotated_any, unsynced_ckpt: false, compare_model: cc.compare_model, bloom: cc.bloom, failed_puts: &failed_puts, script: &script };
                 let k = check_recovery(ctx, &ds, &cfg, &Expect { prefixes: &prefixes, floor }, &info);
                 results.push((n, k, is_torn));
             }
@@ -1432,9 +1440,10 @@ fn stream_frames(ctx: &mut Ctx, r: &mut Rng, n: usize) {
     }
 }
 
-/// candidate finding (reported as an observation until decided): a put_durable of an emb: key with a vector whose
-/// append is refused (SizeLimitExceeded under auto_rotate = false, I/O error) returns an error but keeps the entity
-/// id it allocated before logging: exists/scan show a key no successful write created; a checkpoint persists it
+/// FIXED class (repo f5ce42e5): a put_durable of an emb: key with a vector whose append is refused
+/// (SizeLimitExceeded under auto_rotate = false, I/O error) returned an error but kept the entity id it had
+/// allocated before logging: exists/scan showed a key no successful write created; a checkpoint persisted it.
+/// Regression oracles: `probe_failed_put` (directed, first) and `incoherence_class` in every chain.
 const FAILED_PUT_GHOST: &str = "tensor_store.slab_router.put_durable/failed_put_leaves_entity_index_entry";
 
 /// class of the defect repaired by "only `emb:` keys get an entity-index entry" (put_durable / apply_wal_entry)
@@ -1578,18 +1587,21 @@ fn probe_non_emb_vector_key(ctx: &mut Ctx) {
     }
 }
 
-/// candidate finding (outside the sequential quantifier of C02: needs two threads; reported as an observation):
-/// `checkpoint` releases the log mutex between its fsync, the snapshot and the marker + truncate steps, so a
-/// put_durable of another thread that lands after the snapshot was taken and before the log is truncated is
-/// acknowledged, absent from the snapshot and wiped from the log
+/// FIXED class (repo a74fb575; needs two real threads): `checkpoint` released the log mutex between its fsync,
+/// the snapshot and the marker + truncate steps, so a put_durable / delete_durable of another thread that landed
+/// after the snapshot was taken and before the log was truncated was acknowledged, absent from the snapshot and
+/// wiped from the log. Since the fix the mutex is held from the fsync to the truncation.
 const CKPT_RACE: &str = "tensor_store.slab_router.checkpoint/concurrent_durable_write_lost_by_truncate";
 
-/// One writer thread issues Immediate put_durable calls in a loop while the main thread takes a checkpoint; after
-/// both have finished the directory is recovered and every write that had returned Ok is looked up. Real threads,
-/// real time: how many writes fall into the window varies from run to run, so this is an observation only.
-fn probe_checkpoint_vs_writer(ctx: &mut Ctx) {
-    use std::sync::atomic::{AtomicBool, AtomicUsize, Ordering};
-    use std::sync::Arc;
+/// Regression oracle of `CKPT_RACE`. One writer thread issues Immediate durable writes in a loop (`mixed`: every
+/// other step also deletes the key written one step earlier) while the main thread takes a checkpoint; after both
+/// have finished the directory is recovered (snapshot + log) and the state is compared with the writes that had
+/// returned Ok, in order: a key whose put was acknowledged is missing, or a key whose delete was acknowledged is
+/// back = violation. Real threads, real time: before the fix 3-10 writes fell into the window on every run;
+/// with the mutex held across the checkpoint none can.
+fn probe_checkpoint_vs_writer(ctx: &mut Ctx, round: usize, mixed: bool) {
+    use std::sync::atomic::{AtomicBool, Ordering};
+    use std::sync::{Arc, Mutex};
     let dir = ctx.fresh_dir();
     let wal_path = dir.join("w.wal");
     let snap_path = dir.join("snap.bin");
@@ -1600,39 +1612,198 @@ fn probe_checkpoint_vs_writer(ctx: &mut Ctx) {
         let _ = store.put_durable(format!("base{i}"), td("0123456789012345678901234567890123456789"));
     }
     let stop = Arc::new(AtomicBool::new(false));
-    let acked = Arc::new(AtomicUsize::new(0));
+    // the acknowledged writes of the writer thread, in order: (is_put, index)
+    let acked: Arc<Mutex<Vec<(bool, usize)>>> = Arc::new(Mutex::new(Vec::new()));
     let writer = {
         let (store, stop, acked) = (store.clone(), stop.clone(), acked.clone());
         std::thread::spawn(move || {
             let mut i = 0usize;
             while !stop.load(Ordering::SeqCst) && i < 5000 {
                 if store.put_durable(format!("w{i}"), td("x")).is_ok() {
+                    acked.lock().unwrap().push((true, i));
+                    if mixed && i % 2 == 1 && store.delete_durable(&format!("w{}", i - 1)).is_ok() {
+                        acked.lock().unwrap().push((false, i - 1));
+                    }
                     i += 1;
-                    acked.store(i, Ordering::SeqCst);
                 }
             }
         })
     };
-    std::thread::sleep(std::time::Duration::from_millis(10));
+    std::thread::sleep(std::time::Duration::from_millis(if round % 2 == 0 { 10 } else { 4 }));
     let ck = store.checkpoint(&snap_path);
     stop.store(true, Ordering::SeqCst);
     let _ = writer.join();
-    let n = acked.load(Ordering::SeqCst);
-    let live_has_all = (0..n).all(|i| store.exists(&format!("w{i}")));
+    let acked: Vec<(bool, usize)> = acked.lock().unwrap().clone();
+    let mut expect: BTreeMap<usize, bool> = BTreeMap::new(); // index -> present
+    for (is_put, i) in &acked {
+        expect.insert(*i, *is_put);
+    }
+    let live_agrees = expect.iter().all(|(i, present)| store.exists(&format!("w{i}")) == *present);
     drop(store);
     let rec = TensorStore::recover(&wal_path, &cfg, Some(&snap_path));
-    if let (Ok(_), Ok(r)) = (&ck, &rec) {
-        let lost: Vec<String> = (0..n).filter(|i| !r.exists(&format!("w{i}"))).map(|i| format!("w{i}")).collect();
-        ctx.rep.case("probe_checkpoint_vs_writer", None);
-        if lost.is_empty() {
-            ctx.rep.hit("observe.checkpoint_vs_writer.no_write_fell_into_the_window");
-        } else {
-            ctx.rep.hit("observe.concurrent_write_lost_by_checkpoint");
-            ctx.rep.observe(json!({"class": CKPT_RACE, "what": "a writer thread issued Immediate put_durable calls (each returned Ok) while another thread ran checkpoint; after both finished, recovery from the directory (snapshot + log) does not know some of them: they were logged after the snapshot was taken and wiped by the truncation", "acknowledged_writes": n, "live_store_had_all": live_has_all, "lost_after_recovery": lost.len(), "first_lost": lost.iter().take(4).collect::<Vec<_>>(), "script": "40 base puts; thread A: put_durable w0, w1, … in a loop; thread B: checkpoint; join; recover"}));
-        }
+    let script = json!({"script": "40 base puts; thread A: put_durable w0, w1, … in a loop (mixed: also delete_durable of the previous key at every odd step); thread B: checkpoint; join; recover from snapshot + log", "mixed": mixed, "round": round, "acknowledged_writes": acked.len()});
+    ctx.rep.case("probe_checkpoint_vs_writer", Some(&format!("{round}|{mixed}")));
+    match (&ck, &rec) {
+        (Ok(_), Ok(r)) => {
+            let lost_puts: Vec<String> = expect.iter().filter(|(i, present)| **present && !r.exists(&format!("w{i}"))).map(|(i, _)| format!("w{i}")).collect();
+            let lost_deletes: Vec<String> = expect.iter().filter(|(i, present)| !**present && r.exists(&format!("w{i}"))).map(|(i, _)| format!("w{i}")).collect();
+            let base_lost: Vec<String> = (0..40).map(|i| format!("base{i}")).filter(|k| !r.exists(k)).collect();
+            if acked.is_empty() {
+                ctx.rep.hit("checkpoint_vs_writer.writer_got_nothing_acknowledged");
+            }
+            if lost_puts.is_empty() && lost_deletes.is_empty() && base_lost.is_empty() && live_agrees {
+                ctx.rep.hit("oracle.checkpoint_vs_writer_every_acknowledged_write_recovered");
+            } else if !base_lost.is_empty() || !live_agrees {
+                // not the window of the checkpoint: writes issued before the writer started are gone, or the
+                // running store itself disagrees with its acknowledgements
+                ctx.rep.hit("violation.tensor_store.slab_router.checkpoint/state_differs_from_acknowledged_writes");
+                ctx.rep.violation("tensor_store.slab_router.checkpoint/state_differs_from_acknowledged_writes", "a checkpoint taken while another thread writes: base keys missing after recovery, or the running store disagrees with the acknowledged writes", json!({"script": script, "base_keys_missing": base_lost, "live_store_agrees_with_acks": live_agrees}));
+            } else {
+                ctx.rep.hit(&format!("violation.{CKPT_RACE}"));
+                ctx.rep.violation(CKPT_RACE, &format!("a writer thread's Immediate durable writes (each returned Ok) overlapped a checkpoint of another thread; after both finished, recovery from the directory does not know {} acknowledged puts and shows {} keys whose delete was acknowledged: they were logged after the snapshot was taken and wiped by the truncation", lost_puts.len(), lost_deletes.len()),
+                    json!({"script": script, "live_store_agreed_with_acks": live_agrees, "lost_puts": lost_puts.len(), "first_lost_puts": lost_puts.iter().take(4).collect::<Vec<_>>(), "lost_deletes": lost_deletes.len(), "first_lost_deletes": lost_deletes.iter().take(4).collect::<Vec<_>>()}));
+            }
+        },
+        (ck, rec) => {
+            ctx.rep.hit("violation.tensor_store.slab_router.checkpoint/fails_with_concurrent_writer");
+            ctx.rep.violation("tensor_store.slab_router.checkpoint/fails_with_concurrent_writer", "checkpoint or the recovery that follows returned an error while another thread was writing", json!({"script": script, "checkpoint": ck.as_ref().map(|_| ()).map_err(|e| e.to_string()), "recover": rec.as_ref().map(|_| ()).map_err(|e| e.to_string())}));
+        },
     }
     drop(rec);
     let _ = std::fs::remove_dir_all(&dir);
+}
+
+/// Regression cases of the FIXED class `FAILED_PUT_GHOST` (repo f5ce42e5): auto_rotate = false, a put_durable of
+/// an emb: key with a 64-dim vector whose EmbeddingSet record (refused at record 0) or whose MetadataSet record
+/// (refused at record 1) does not fit max_size_bytes returns an error. Oracle on the implementation's own
+/// answers: the failed put changed nothing — scan+get image as before; for a key that was not there exists is
+/// false, scan (empty prefix and the key as prefix) does not list it, get rejects it; a key that was there keeps
+/// its value — on the running store, on the store recovered from the log alone, and after checkpoint + recover
+/// (the checkpoint used to persist the leaked entry). Then the same key is written successfully (small vector).
+fn probe_failed_put(ctx: &mut Ctx) {
+    let stream = "probe_failed_put";
+    let key = "emb:new";
+    let big = tdv("x", 1.0, 64);
+    let eset_size = 8 + bitcode::serialize(&WalEntry::EmbeddingSet { entity_id: tensor_store::EntityId::new(0), embedding: (0..64).map(|i| 1.0 + (i % 5) as f32 * 0.37).collect() }).map(|b| b.len()).unwrap_or(0);
+    let smalls: Vec<(String, TensorData)> = (0..3).map(|i| (format!("k{i}"), td("vvvvvvvvvvvvvvvv"))).collect();
+    let with_existing: Vec<(String, TensorData)> = vec![("k0".to_string(), td("vvvvvvvvvvvvvvvv")), (key.to_string(), tdv("old", 2.0, 3))];
+    // (name, operations before, max_size_bytes (None: computed so that exactly `refuse_at` records of the put fit), refuse_at)
+    let scenarios: Vec<(&str, Vec<(String, TensorData)>, Option<u64>, usize)> = vec![
+        ("three_small_puts_max200", smalls.clone(), Some(200), 0),
+        ("metadata_record_refused", smalls.clone(), None, 1),
+        ("key_already_indexed", with_existing.clone(), None, 0),
+        ("key_already_indexed_metadata_record_refused", with_existing, None, 1),
+        ("first_operation_of_the_store", Vec::new(), Some(40), 0),
+        ("first_operation_metadata_record_refused", Vec::new(), None, 1),
+    ];
+    for (name, pre, fixed_max, refuse_at) in scenarios {
+        // length of the log after the operations before (dry run without a limit)
+        let pre_len = {
+            let d = ctx.fresh_dir();
+            let w = d.join("w.wal");
+            let len = match TensorStore::open_durable(&w, cfg_for(SyncMode::Immediate, None)) {
+                Ok(st) => {
+                    for (k, v) in &pre {
+                        let _ = st.put_durable(k.clone(), v.clone());
+                    }
+                    drop(st);
+                    std::fs::metadata(&w).map(|m| m.len()).unwrap_or(0)
+                },
+                Err(_) => 0,
+            };
+            let _ = std::fs::remove_dir_all(&d);
+            len
+        };
+        // (room for the checkpoint marker, about 12 bytes, is left in the second case; the MetadataSet record of a
+        // 64-dim vector takes more than 270)
+        let max = fixed_max.unwrap_or(pre_len + if refuse_at == 0 { 30 } else { eset_size as u64 + 40 });
+        let dir = ctx.fresh_dir();
+        let wal_path = dir.join("w.wal");
+        let snap_path = dir.join("snap.bin");
+        let mut cfg = cfg_for(SyncMode::Immediate, Some(max));
+        cfg.auto_rotate = false;
+        let Ok(store) = TensorStore::open_durable(&wal_path, cfg.clone()) else {
+            ctx.rep.note("probe_failed_put: open_durable failed");
+            continue;
+        };
+        let mut pre_ok = true;
+        for (k, v) in &pre {
+            pre_ok &= store.put_durable(k.clone(), v.clone()).is_ok();
+        }
+        let was_there = pre.iter().any(|(k, _)| k == key);
+        let before = image_of(&store);
+        let len_before = std::fs::metadata(&wal_path).map(|m| m.len() as usize).unwrap_or(0);
+        let res = store.put_durable(key.to_string(), big.clone());
+        let file = std::fs::read(&wal_path).unwrap_or_default();
+        let appended = file_entries(&file[len_before.min(file.len())..]);
+        let script = json!({"scenario": name, "auto_rotate": false, "max_size_bytes": max, "before": pre.iter().map(|(k, v)| op_str(&Op::Put(k.clone(), v.clone()))).collect::<Vec<_>>(), "then": format!("put_durable({key:?}, 64-dim vector) -> {}", if res.is_ok() { "Ok" } else { "Err" }), "records_appended_by_the_failed_put": appended});
+        ctx.rep.case(stream, Some(name));
+        if !pre_ok || res.is_ok() || appended.len() != refuse_at {
+            // the scenario did not come out as designed (sizes changed?): say so, the oracle below still runs
+            ctx.rep.hit("probe_failed_put.scenario_not_as_designed");
+            ctx.rep.note(&format!("probe_failed_put {name}: before-ops ok={pre_ok}, put ok={}, records appended={} (designed: Err, {refuse_at})", res.is_ok(), appended.len()));
+        } else {
+            ctx.rep.hit(if refuse_at == 0 { "failed_put.embedding_record_refused" } else { "failed_put.metadata_record_refused" });
+            ctx.rep.hit(if was_there { "failed_put.key_was_indexed" } else { "failed_put.key_was_new" });
+        }
+        // (where, exists, scan lists, scan by key prefix lists, get ok, image)
+        let look = |st: &TensorStore| -> (bool, bool, bool, bool, Vec<String>) { (st.exists(key), st.scan("").iter().any(|k| k == key), st.scan(key).iter().any(|k| k == key), st.get(key).is_ok(), image_of(st)) };
+        let mut seen: Vec<(&str, (bool, bool, bool, bool, Vec<String>))> = vec![("running store", look(&store))];
+        // the log alone (the failed put may have left an orphan EmbeddingSet record in it)
+        {
+            let d2 = ctx.fresh_dir();
+            let w2 = d2.join("w.wal");
+            let _ = std::fs::write(&w2, &file);
+            if let Ok(r) = TensorStore::recover(&w2, &cfg, None) {
+                seen.push(("store recovered from the log", look(&r)));
+            } else {
+                ctx.rep.hit("violation.tensor_store.recover/recover_error");
+                ctx.rep.violation("tensor_store.recover/recover_error", "recovery from the log of a session with a refused put failed", json!({"script": script}));
+            }
+            let _ = std::fs::remove_dir_all(&d2);
+        }
+        // checkpoint, recover from snapshot + (empty) log
+        let ck = store.checkpoint(&snap_path);
+        drop(store);
+        if ck.is_err() {
+            // the marker record itself did not fit: the checkpoint stopped with the snapshot in place and the log
+            // whole, which recovery must cope with as with a crash at that step
+            ctx.rep.hit("probe_failed_put.checkpoint_marker_refused");
+        }
+        match (Ok::<(), ()>(()), TensorStore::recover(&wal_path, &cfg, if snap_path.exists() { Some(snap_path.as_path()) } else { None })) {
+            (Ok(_), Ok(r)) => {
+                seen.push(("store recovered after a checkpoint", look(&r)));
+                // the key can be written afterwards (the log is empty again: a small value fits)
+                if res.is_err() {
+                    let again = r.put_durable(key.to_string(), tdv("y", 2.0, 3));
+                    let got = r.get(key).map(|d| canon(&d));
+                    if ck.is_ok() && max >= 120 && !(again.is_ok() && got.as_ref().ok() == Some(&canon(&tdv("y", 2.0, 3)))) {
+                        ctx.rep.hit("violation.tensor_store.slab_router.put_durable/put_after_failed_put_not_readable");
+                        ctx.rep.violation("tensor_store.slab_router.put_durable/put_after_failed_put_not_readable", "after a refused put, checkpoint and recovery, a put of the same key with a small vector is not read back", json!({"script": script, "put_ok": again.is_ok(), "get_ok": got.is_ok()}));
+                    }
+                }
+            },
+            (_, rec) => {
+                ctx.rep.hit("violation.tensor_store.recover/recover_error");
+                ctx.rep.violation("tensor_store.recover/recover_error", "recovery after a refused put and a checkpoint failed", json!({"script": script, "checkpoint_ok": ck.is_ok(), "recover_error": rec.err().map(|e| e.to_string())}));
+            },
+        }
+        if res.is_err() {
+            for (where_, (exists, listed, listed_p, get_ok, img)) in &seen {
+                let ghost = !was_there && !*get_ok && (*exists || *listed || *listed_p);
+                if ghost {
+                    ctx.rep.hit(&format!("violation.{FAILED_PUT_GHOST}"));
+                    ctx.rep.violation(FAILED_PUT_GHOST, &format!("{where_}: a put_durable that returned an error left its key behind: exists={exists} scan_lists={listed} scan_by_key_prefix_lists={listed_p} get_ok={get_ok}"), json!({"script": script, "image_before": before, "image_after": img}));
+                } else if *img != before || (was_there != *exists) || (was_there != *get_ok) || (was_there != *listed) || (was_there != *listed_p) {
+                    ctx.rep.hit("violation.tensor_store.slab_router.put_durable/failed_put_changes_store");
+                    ctx.rep.violation("tensor_store.slab_router.put_durable/failed_put_changes_store", &format!("{where_}: a put_durable that returned an error changed what the store answers: exists={exists} scan_lists={listed} scan_by_key_prefix_lists={listed_p} get_ok={get_ok} (key was there before: {was_there})"), json!({"script": script, "image_before": before, "image_after": img}));
+                } else {
+                    ctx.rep.hit("oracle.failed_put_changed_nothing");
+                }
+            }
+        }
+        let _ = std::fs::remove_dir_all(&dir);
+    }
 }
 
 fn td(s: &str) -> TensorData {
@@ -1659,7 +1830,6 @@ fn main() {
         snap_contents: std::collections::HashMap::new(),
         max_rel_err: 0.0,
         n_inexact_obs: 0,
-        n_ghost_obs: (0, 0),
     };
     ctx.rep.expected_branches = [
         "record.set", "record.del", "record.eset", "record.edel", "record.eremove", "keyclass.embedding", "keyclass.graph", "keyclass.table",
@@ -1667,7 +1837,7 @@ fn main() {
         "crash_number.1", "crash_number.2", "ckpt_state.before_fsync", "ckpt.unsynced_tail_flushed_by_checkpoint", "ckpt_state.before_snapshot", "ckpt_state.after_snapshot", "ckpt_state.inside_marker",
         "ckpt_state.after_marker", "ckpt_state.after_truncate", "frames.end.clean", "frames.end.torn", "frames.end.bad_crc", "frames.end.undecodable",
         "op.sync", "op.checkpoint", "oracle.recovered_state_is_acked_prefix",
-        "config.bloom", "config.no_checksums", "config.no_verify", "config.batched01", "ckpt_state.partial_snapshot_tmp", "emb.nonvector", "crash_number.3", "config.no_auto_rotate", "op.refused_by_size_limit", "oracle.exists_scan_get_agree", "rotate_state.log_path_missing", "rotate_state.fresh_file_created", "rotate_state.before_live_rename",
+        "config.bloom", "config.no_checksums", "config.no_verify", "config.batched01", "ckpt_state.partial_snapshot_tmp", "emb.nonvector", "crash_number.3", "config.no_auto_rotate", "op.refused_by_size_limit", "op.refused_put_of_emb_key_with_vector", "op.refused_put_after_0_records", "op.refused_put_after_1_records", "op.refused_delete_after_2_records", "failed_put.embedding_record_refused", "failed_put.metadata_record_refused", "failed_put.key_was_indexed", "failed_put.key_was_new", "oracle.failed_put_changed_nothing", "oracle.checkpoint_vs_writer_every_acknowledged_write_recovered", "oracle.exists_scan_get_agree", "rotate_state.log_path_missing", "rotate_state.fresh_file_created", "rotate_state.before_live_rename",
     ]
     .iter()
     .map(|s| s.to_string())
@@ -1675,6 +1845,13 @@ fn main() {
     let th = args.thorough;
 
     // 0. DIRECTED, FIRST ON EVERY RUN (the report keeps the first 50 violations).
+    // regression oracles of the two classes repaired last (silent on the repaired code):
+    // f5ce42e5 put_durable/failed_put_leaves_entity_index_entry
+    probe_failed_put(&mut ctx);
+    // a74fb575 checkpoint/concurrent_durable_write_lost_by_truncate (two real threads)
+    for round in 0..(if th { 12 } else { 4 }) {
+        probe_checkpoint_vs_writer(&mut ctx, round, round % 2 == 1);
+    }
     {
         let mut r = rng.fork("probes");
         // KNOWN FINDING tensor_store.wal.rotate/acked_entries_not_replayed: max_size_bytes=220, 14 Immediate
@@ -1833,8 +2010,9 @@ fn main() {
         run_chain(&mut ctx, &mut r, &cc, &eps);
         // auto_rotate = false: a record that does not fit max_size_bytes is refused (SizeLimitExceeded) and the
         // operation returns an error before the in-memory apply. Three small puts, then a put of a new emb: key with
-        // a 64-dim vector that does not fit (its entity id stays allocated: candidate finding FAILED_PUT_GHOST,
-        // observed), a checkpoint (persists the entry, empties the log), a delete of the ghost, more writes
+        // a 64-dim vector that does not fit (the entity id it was given is released again, repo f5ce42e5: class
+        // FAILED_PUT_GHOST; the id stays consumed, so emb:big below gets a higher one), a checkpoint (empties the
+        // log), a delete of the key that is not there, more writes
         let eps = vec![
             vec![Op::Put("k0".into(), td("vvvvvvvvvvvvvvvv")), Op::Put("k1".into(), td("vvvvvvvvvvvvvvvv")), Op::Put("k2".into(), td("vvvvvvvvvvvvvvvv")), Op::Put("emb:new".into(), tdv("x", 1.0, 64)), Op::Put("j".into(), td("w")), Op::Ckpt],
             vec![Op::Del("emb:new".into()), Op::Put("a".into(), td("v")), Op::Put("emb:new".into(), tdv("y", 2.0, 3)), Op::Put("emb:big".into(), tdv("z", 3.0, 64))],
@@ -1842,7 +2020,62 @@ fn main() {
         ];
         let cc = ChainCfg { stream: "probe_size_limit", mode: SyncMode::Immediate, max_size: Some(200), random_cuts: 4, resume_full: true, no_rotate: true, ..BASE };
         run_chain(&mut ctx, &mut r, &cc, &eps);
-        // a delete refused in the middle of its records (EmbeddingDelete + EntityRemove fit, MetadataDelete does not)
+        // the same through crash chains and against the model (f5ce42e5; `failMem`): (1) the EmbeddingSet record of
+        // the refused put fits and its MetadataSet record does not (an orphan EmbeddingSet stays in the log);
+        // (2) the key of the refused put is already indexed (nothing to release); (3) the id given to the refused
+        // put stays consumed: the next new emb: keys of the same session get ids 1 and 2 (compared record by record)
+        {
+            let small = td("vvvvvvvvvvvvvvvv");
+            let set_size = |k: &str, d: &TensorData| record_size("set", k, Some(d)) as u64;
+            let eset64 = record_size(&format!("eset:0:{}", hex(&f32s_bytes(&(0..64).map(|i| 1.0 + (i % 5) as f32 * 0.37).collect::<Vec<f32>>()))), "emb:new", None) as u64;
+            let eset3 = record_size(&format!("eset:0:{}", hex(&f32s_bytes(&[2.0, 2.37, 2.74]))), "emb:new", None) as u64;
+            // (1)
+            let pre: u64 = (0..3).map(|i| set_size(&format!("k{i}"), &small)).sum();
+            let eps = vec![
+                vec![Op::Put("k0".into(), small.clone()), Op::Put("k1".into(), small.clone()), Op::Put("k2".into(), small.clone()), Op::Put("emb:new".into(), tdv("x", 1.0, 64)), Op::Ckpt],
+                vec![Op::Del("emb:new".into()), Op::Put("emb:new".into(), tdv("y", 2.0, 3)), Op::Put("emb:z".into(), tdv("z", 3.0, 3)), Op::Put("emb:big".into(), tdv("b", 3.0, 64))],
+                vec![Op::Put("b".into(), td("v2"))],
+            ];
+            let cc = ChainCfg { stream: "probe_size_limit", mode: SyncMode::Immediate, max_size: Some(pre + eset64 + 40), random_cuts: 4, resume_full: true, no_rotate: true, ..BASE };
+            run_chain(&mut ctx, &mut r, &cc, &eps);
+            // the same without the checkpoint: the crash leaves the orphan EmbeddingSet record in the log
+            let eps = vec![
+                vec![Op::Put("k0".into(), small.clone()), Op::Put("k1".into(), small.clone()), Op::Put("k2".into(), small.clone()), Op::Put("emb:new".into(), tdv("x", 1.0, 64)), Op::Put("j".into(), td("w"))],
+                vec![Op::Put("emb:new".into(), td("z"))],
+            ];
+            let cc = ChainCfg { stream: "probe_size_limit", mode: SyncMode::Immediate, max_size: Some(pre + eset64 + 40), random_cuts: 4, no_rotate: true, ..BASE };
+            run_chain(&mut ctx, &mut r, &cc, &eps);
+            // (2)
+            let old = tdv("old", 2.0, 3);
+            let pre = set_size("k0", &small) + eset3 + set_size("emb:new", &old);
+            let eps = vec![
+                vec![Op::Put("k0".into(), small.clone()), Op::Put("emb:new".into(), old.clone()), Op::Put("emb:new".into(), tdv("x", 1.0, 64)), Op::Ckpt, Op::Put("emb:q".into(), tdv("q", 4.0, 3))],
+                vec![Op::Del("emb:new".into()), Op::Put("emb:r".into(), tdv("r", 5.0, 3))],
+            ];
+            let cc = ChainCfg { stream: "probe_size_limit", mode: SyncMode::Immediate, max_size: Some(pre + 100), random_cuts: 4, resume_full: true, no_rotate: true, ..BASE };
+            run_chain(&mut ctx, &mut r, &cc, &eps);
+            // (3)
+            let eps = vec![
+                vec![Op::Put("emb:big".into(), tdv("x", 1.0, 64)), Op::Put("emb:a".into(), tdv("a", 2.0, 3)), Op::Put("emb:b".into(), tdv("b", 3.0, 3)), Op::Del("emb:a".into()), Op::Put("emb:big".into(), tdv("x", 1.0, 64))],
+                vec![Op::Put("emb:c".into(), tdv("c", 4.0, 3)), Op::Put("emb:big".into(), tdv("x", 1.0, 64)), Op::Put("emb:d".into(), tdv("d", 5.0, 3))],
+            ];
+            let cc = ChainCfg { stream: "probe_size_limit", mode: SyncMode::Immediate, max_size: Some(eset64 - 4), random_cuts: 4, no_rotate: true, ..BASE };
+            run_chain(&mut ctx, &mut r, &cc, &eps);
+        }
+        // a delete refused in the middle of its records (EmbeddingDelete + EntityRemove fit, MetadataDelete does not):
+        // first with the limit computed from the real record sizes, then over a range of limits
+        {
+            let ea = tdv("e", 1.0, 3);
+            let kv = td("0123456789");
+            let pre = record_size(&format!("eset:0:{}", hex(&f32s_bytes(&[1.0, 1.37, 1.74]))), "emb:a", None) + record_size("set", "emb:a", Some(&ea)) + record_size("set", "k", Some(&kv));
+            let two = record_size("edel:0", "emb:a", None) + record_size("eremove:-", "emb:a", None);
+            let eps = vec![
+                vec![Op::Put("emb:a".into(), ea.clone()), Op::Put("k".into(), kv.clone()), Op::Del("emb:a".into()), Op::Del("k".into())],
+                vec![Op::Del("emb:a".into()), Op::Put("q".into(), td("r"))],
+            ];
+            let cc = ChainCfg { stream: "probe_size_limit", mode: SyncMode::Immediate, max_size: Some((pre + two + 4) as u64), every_byte: th, random_cuts: 3, no_rotate: true, ..BASE };
+            run_chain(&mut ctx, &mut r, &cc, &eps);
+        }
         let eps = vec![
             vec![Op::Put("emb:a".into(), tdv("e", 1.0, 3)), Op::Put("k".into(), td("0123456789")), Op::Del("emb:a".into()), Op::Del("k".into()), Op::Put("emb:a".into(), td("z"))],
             vec![Op::Del("emb:a".into()), Op::Put("q".into(), td("r"))],
@@ -1853,8 +2086,6 @@ fn main() {
             run_chain(&mut ctx, &mut r, &cc, &eps);
         }
     }
-
-    probe_checkpoint_vs_writer(&mut ctx);
 
     // 1. crc + frames
     let mut r = rng.fork("crc");
